@@ -22,7 +22,7 @@ D1_GRAMMAR = {"lex": [(2, "_r", [[('l', 97), ('l', 97)]]),
 def run(tier):
     ck = C.Check("C01", tier)
     failed = ck.proofs()
-    n_g, n_in = (40, 25) if tier == "quick" else (900, 80)
+    n_g, n_in = (40, 25) if tier == "quick" else (500, 60)
     res = lexfam.run_family(ck, n_g, n_in, with_reset=False)
     stats = {"grammars": 0, "gocc_failed": 0, "tables_equal": 0, "scans": 0, "scan_eq_model": 0, "scan_eq_ref": 0,
              "ref_equiv": 0, "ref_diff": 0, "cyclic": 0, "modes": {}}
